@@ -247,21 +247,23 @@ Inductive step := SWrite (b : batch) | SPubBest (id : N) | SPubFin (id : N).
 Definition writes_of_steps (l : list step) : list batch :=
   flat_map (fun x => match x with SWrite b => [b] | _ => [] end) l.
 
-(* bft.Engine.CommitBlock for a block that is already stored: quality record at a store point, then finalized *)
+(* bft.Engine.CommitBlock for a block that is already stored: at a store point the quality record and, when the round
+   commits, the finalized record — ONE batch (the F13 repair, /repo 38d50ce; before it two separate writes, see
+   split_window below).  The search reads the block's own quality from the engine's cache: here from the store with the
+   record applied.  A failing search leaves the quality record alone (CommitBlock returns the error after writing it). *)
 Definition commit_steps (c : cfg) (s : store) (id parent : N) (just comm : bool) : list step :=
   if is_storepoint (c_L c) (num_of id) then
     match quality_of c s parent (num_of id) just with
     | None => []
     | Some q =>
       let wq := [ Put (KQuality id) (VNum q) ] in
-      SWrite wq ::
       (* nothing to finalize while the block is still in finalized's own epoch (the guard shared with Resync) *)
-      (if comm && (1 <? q) && (num_of (finalized c s) <? checkpoint (c_L c) (num_of id)) then
-         match find_checkpoint c (apply_batch s wq) (q - 1) (finalized c s) id with
-         | Some f => [ SWrite [ Put KFinalized (VId f) ]; SPubFin f ]
-         | None => []
-         end
-       else [])
+      if comm && (1 <? q) && (num_of (finalized c s) <? checkpoint (c_L c) (num_of id)) then
+        match find_checkpoint c (apply_batch s wq) (q - 1) (finalized c s) id with
+        | Some f => [ SWrite (wq ++ [ Put KFinalized (VId f) ]); SPubFin f ]
+        | None => [ SWrite wq ]
+        end
+      else [ SWrite wq ]
     end
   else [].
 
